@@ -56,6 +56,14 @@ def gen(ctx):
         rng = random.Random(sub)
         out.append({"seed": sub, "solver": s, "problem": SHIPPED[p], "config": solver_cfg(s, rng), "k": 11, "two_calls": False, "async": rng.random() < 0.5,
                     "straddles_power_of_ten": True})
+    # directed: the run CONVERGES inside its budget with the periodic solver's default clear_value_history_on_convergence=True.
+    # The checkpoint of the converged step must hold the history the solver had at that iteration (what an identical run that
+    # keeps its history holds there) - it is written before the history is released
+    for p in ([1] if quick else [0, 1, 3]):
+        sub = ctx.rng.randrange(10 ** 9)
+        rng = random.Random(sub)
+        cfg = {"gamma": 0.875, "epsilon": 2.0 ** 20, "max_batch_size": rng.choice([8, 1024]), "period": rng.choice([2, 3])}
+        out.append({"seed": sub, "solver": "pvi", "problem": SHIPPED[p], "config": cfg, "k": 8, "two_calls": False, "async": rng.random() < 0.5, "converges_with_history_cleared": True})
     return out
 
 
@@ -85,6 +93,10 @@ def experiment(ctx, c, idx):
     e = {"A": a, "dir": d}
     if "error" in a:
         return e
+    if c.get("converges_with_history_cleared"):
+        # the identical run that keeps its history: its state at the final save is what the checkpoint must hold
+        e["A_twin"] = core.run_worker(ctx, [{"kind": "ckpt_run", "problem": c["problem"], "solver": c["solver"], "ops": ops,
+                                              "config": dict(cfg, checkpoint_dir=d + "_twin", clear_value_history_on_convergence=False)}])[0]
     steps = a["dir"]["steps"]
     jobs = {"default": {"kind": "ckpt_restore", "solver": c["solver"], "dir": d}}
     if len(steps) > 1:
@@ -135,6 +147,13 @@ def oracle(c, e):
     for s in a["saves"]:
         snaps.setdefault(s["step"], s["state"])
     steps = a["dir"]["steps"]
+    if c.get("converges_with_history_cleared"):
+        tw = e.get("A_twin", {})
+        if "error" in tw or tw.get("dir", {}).get("steps") != steps or tw["obs"][-1]["iteration"] != a["obs"][-1]["iteration"] or a["obs"][-1]["iteration"] >= c["k"]:
+            return [(f"run:{c['seed']}", f"directed converging run: the run and its history-keeping twin disagree or did not converge ({str(tw)[:200]})")]
+        for s in tw["saves"]:
+            if s["step"] == steps[-1]:
+                snaps[s["step"]] = dict(s["state"])      # expectation for the converged step: the twin's state at its final save
 
     def check_restored(name, r, step):
         if "error" in r:
